@@ -505,6 +505,122 @@ def h_group_receipts(ctx):
     return obs
 
 
+def h_retry_loop(ctx, group, failures):
+    """both ends of a retry, each the real layer: the receiver cannot decrypt a message `failures` times and asks for a retry; the request
+    IT produced is handed (as the server would) to the sender, who still has the message queued: the original is re-encrypted once, for the
+    requester only.  Catches conventions (retry counter, ids, participant) on which the two layers must agree."""
+    N = SC.N()
+    mid = H.zstr(ctx, "id")
+    me_s, me_r = "4915900000001@s.whatsapp.net", "4915900000002@s.whatsapp.net"
+    chat = "4915900000001-1400000000@g.us" if group else None
+    # receiver side
+    st_r, bottom_r, app_r, mgr_r, _, _ = _stack(ctx, sessions=True, outcome="invalid-message", plaintext=_payload("text"))
+    attrs = {"id": mid, "from": chat or me_s, "type": "text", "t": "1400000000", "notify": "S"}
+    if group:
+        attrs["participant"] = me_s
+    for _k in range(failures):
+        bottom_r.inject(N("message", dict(attrs), [N("enc", {"type": "skmsg" if group else "msg", "v": "2"}, None, b"\x33\x08ciphertext")]))
+    rr = [n for n in bottom_r.down if n.tag == "receipt"]
+    obs = [("receiver asks for a retry once per failed delivery (got %d)" % len(rr), len(rr) == failures and len(app_r.up) == 0)]
+    if len(rr) != failures:
+        return obs
+    # sender side: has sent the message before
+    st_s, bottom_s, app_s, mgr_s, sl, _ = _stack(ctx, sessions=True, senderkey=True)
+    sl.send(N("message", {"to": chat or me_r, "type": "text", "id": mid}, [N("proto", {}, None, _payload("text"))]))
+    first = [n for n in bottom_s.down if n.tag == "message"]
+    obs.append(("the message leaves the sender once", len(first) == 1))
+    req = rr[-1]
+    rattrs = {"id": hooks.dict_get(req.attributes, "id"), "from": chat or me_r, "type": hooks.dict_get(req.attributes, "type"), "t": "1400000009"}
+    if group:
+        rattrs["participant"] = me_r
+    n0 = len(bottom_s.down)
+    bottom_s.inject(N("receipt", rattrs, list(req.children)))          # the server forwards the receiver's request
+    new = bottom_s.down[n0:]
+    iqs = [n for n in new if n.tag == "iq"]
+    obs.append(("the sender serves the request: acknowledged, keys of the requester fetched", len([n for n in new if n.tag == "ack"]) == 1 and len(iqs) == 1))
+    if len(iqs) != 1:
+        return obs
+    from checks import c09
+    found, _ = c09.discover()
+    fx = [c09._load_fixture(m, c_)[1] for m, c_, _l, _d in found if c_ == "ResultGetKeysIqProtocolEntityTest"][0]
+    user = fx.getChild("list").children[0]
+    n1 = len(bottom_s.down)
+    bottom_s.inject(N("iq", {"id": hooks.dict_get(iqs[0].attributes, "id"), "type": "result", "from": "s.whatsapp.net"}, [N("list", {}, [N("user", {"jid": me_r}, list(user.children))])]))
+    again = [n for n in bottom_s.down[n1:] if n.tag == "message"]
+    obs.append(("the original is re-encrypted and sent exactly once (got %d)" % len(again), len(again) == 1))
+    if len(again) == 1:
+        a = again[0]
+        obs.append(("... with the original id", SC.val_eq(hooks.dict_get(a.attributes, "id"), mid)))
+        obs.append(("... as an envelope without plaintext", a.getChild("proto") is None and len(a.getAllChildren("enc")) >= 1))
+        if group:
+            obs.append(("... for the requesting member only (the other members already have it: a group-wide resend would show it twice)",
+                        SC.val_eq(hooks.dict_get(a.attributes, "participant"), me_r)))
+            pair = [c for c in mgr_s.calls if c[0] == "encrypt"]
+            grp = [c for c in mgr_s.calls if c[0] == "group_encrypt"]
+            obs.append(("... under the requester's pairwise session, the group key is not advanced again (group encryptions: %d)" % len(grp), len(pair) >= 1 and len(grp) == 1))
+        else:
+            obs.append(("... to the requester", SC.val_eq(hooks.dict_get(a.attributes, "to"), me_r)))
+    return obs
+
+
+class _AbandonedProcess(object):
+    pass
+
+
+def h_restart_conversation(ctx):
+    """REAL AxolotlManager + REAL sqlite stores + real python-axolotl for two parties; one of them is restarted between messages (its
+    process dies while none of its stanzas is in flight: connections vanish without a final commit, the database file is reopened).
+    Every message must decrypt exactly once, with the original content, also after the restart."""
+    import os, shutil, tempfile
+    from checks import c17
+    kind = ctx.choice("conversation", ["1:1", "group"])
+    who = ctx.choice("restarted_party", ["sender", "receiver"])
+    when = ctx.choice("restart_after_message", [1, 2])
+    d = tempfile.mkdtemp(prefix="c03_", dir=c17._TMP if hasattr(c17, "_TMP") else None)
+    A, B, G = "4915900000001", "4915900000002", "4915900000001-1400000000@g.us"
+    try:
+        mgr = {"A": c17._manager(os.path.join(d, "a.db"), A), "B": c17._manager(os.path.join(d, "b.db"), B)}
+
+        def restart(p):
+            # process death: the connection disappears, whatever was not committed is lost
+            mgr[p]._store.identityKeyStore.dbConn.close()
+            mgr[p] = c17._manager(os.path.join(d, p.lower() + ".db"), A if p == "A" else B)
+        mgr["A"].create_session(B, c17._bundle(mgr["B"]))
+        obs = []
+        skdm_sent = False
+        for i in (1, 2, 3):
+            text = ("message number %d" % i).encode()
+            if kind == "1:1":
+                ct = mgr["A"].encrypt(B, text)
+                from axolotl.protocol.whispermessage import WhisperMessage
+                try:
+                    got = mgr["B"].decrypt_msg(A, ct.serialize(), True) if isinstance(ct, WhisperMessage) else mgr["B"].decrypt_pkmsg(A, ct.serialize(), True)
+                except Exception as e:
+                    got = "%s" % type(e).__name__
+                if i == 1:
+                    # B answers once so that A's session is acknowledged (ordinary conversation)
+                    back = mgr["B"].encrypt(A, b"reply")
+                    mgr["A"].decrypt_msg(B, back.serialize(), True) if isinstance(back, WhisperMessage) else mgr["A"].decrypt_pkmsg(B, back.serialize(), True)
+            else:
+                if mgr["A"].load_senderkey(G).isEmpty() or not skdm_sent:
+                    skdm = mgr["A"].group_create_skmsg(G)
+                    mgr["B"].group_create_session(G, A, skdm.serialize())
+                    skdm_sent = True
+                ct = mgr["A"].group_encrypt(G, text)
+                try:
+                    got = mgr["B"].group_decrypt(G, A, ct)
+                except Exception as e:
+                    got = "%s" % type(e).__name__
+            obs.append(("message %d (%s) is decrypted by the receiver with the original content (%s)" % (i, kind, got if not isinstance(got, bytes) else "ok"), got == text))
+            if i == when:
+                restart("A" if who == "sender" else "B")
+        return obs
+    finally:
+        for m_ in list(locals().get("mgr", {}).values()):
+            c17._close(m_)
+        shutil.rmtree(d, ignore_errors=True)
+
+
 def h_manager_exception_mapping(ctx):
     """REAL AxolotlManager.decrypt_*: each failure class of the ratchet library is reported as the matching yowsup class
     (duplicate != invalid message != invalid key id != no session) -- the receive layer's reactions depend on it"""
@@ -566,6 +682,10 @@ def cases(tier):
           dict(name="send[1:1,no-session]", fn=h_send_no_session), dict(name="send[group,first message,sessions]", fn=h_send_group_first, args=(True,)),
           dict(name="send[group,first message,no sessions]", fn=h_send_group_first, args=(False,)), dict(name="send[queue-bound]", fn=h_queue_bound), dict(name="retry-receipt", fn=h_retry_receipt), dict(name="group-receipts", fn=h_group_receipts), dict(name="manager-exception-mapping", fn=h_manager_exception_mapping, keep_samples=12),
           dict(name="pad[real manager]", fn=h_padding)]
+    for grp in (False, True):
+        for f in (1, 2):
+            cs.append(dict(name="retry-loop[%s,%d failed deliveries]" % ("group" if grp else "1:1", f), fn=h_retry_loop, args=(grp, f)))
+    cs.append(dict(name="restart[real managers and stores]", fn=h_restart_conversation, keep_samples=12))
     cs.append(dict(name="send2[1:1]", fn=h_send_two, args=("contact",)))
     cs.append(dict(name="send2[group]", fn=h_send_two, args=("group",)))
     for enctype in ("pkmsg", "msg", "skmsg"):
